@@ -76,13 +76,18 @@ def _node_hash(self):
     return h
 
 
+def reset_node_table():
+    """Forget all node hashes (start of a case: no node of an earlier case is
+    looked up again)."""
+    _NODE_TABLE.clear()
+    _NODE_STATE["n"] = 0
+
+
 def install_node_hash(salt):
     """Replace Node's identity hash by a salted creation counter so that the
     iteration order of sets of nodes is a replayable choice."""
     import uberjob.graph as g
 
-    _NODE_TABLE.clear()
-    _NODE_STATE["n"] = 0
     _NODE_STATE["salt"] = salt
     if getattr(g.Node, "_verif_hash", False):
         return
